@@ -1290,6 +1290,9 @@ func (i *interpreter) trimSet(s value, cutset string, left, right bool) value {
 	if cutset == "" {
 		return s
 	}
+	if r, ok := i.trimSetSyntactic(s, cutset, left, right); ok {
+		return r
+	}
 	var alts []string
 	for k := 0; k < len(cutset); k++ {
 		alts = append(alts, "(str.to_re "+smtStr(cutset[k:k+1])+")")
@@ -1341,4 +1344,96 @@ func (i *interpreter) replace(s, old, nw value, n int) value {
 		r = mkConcat(r, part)
 	}
 	return i.compact(r)
+}
+
+// trimSetSyntactic trims on the segment list when the facts decide it: a
+// concrete segment is trimmed natively; a symbolic segment whose alphabet is
+// disjoint from the cutset stops the trimming if it is provably non-empty (or
+// if what lies beyond it cannot be trimmed either).
+func (i *interpreter) trimSetSyntactic(s value, cutset string, left, right bool) (value, bool) {
+	p := i.path
+	segs := append([]interface{}(nil), segmentsOf(s)...)
+	disjoint := func(sg *Sym) bool {
+		a, ok := p.alpha[sg.e]
+		if !ok {
+			for k := 0; k < len(cutset); k++ {
+				if !p.noContain(sg.e, cutset[k:k+1]) {
+					return false
+				}
+			}
+			return true
+		}
+		for k := 0; k < len(cutset); k++ {
+			if a[cutset[k]] {
+				return false
+			}
+		}
+		return true
+	}
+	nonEmpty := func(sg *Sym) bool {
+		lo, _ := p.ivOf(p.mkLen(sg))
+		return lo != nil && lo.Sign() > 0
+	}
+	if right {
+		for {
+			if len(segs) == 0 {
+				break
+			}
+			last := segs[len(segs)-1]
+			if c, ok := last.(string); ok {
+				t := strings.TrimRight(c, cutset)
+				if t != "" {
+					segs[len(segs)-1] = t
+					break
+				}
+				segs = segs[:len(segs)-1]
+				continue
+			}
+			sg := last.(*Sym)
+			if !disjoint(sg) {
+				return nil, false
+			}
+			if nonEmpty(sg) {
+				break
+			}
+			// possibly empty: fine if the segment before it cannot be trimmed either
+			if len(segs) >= 2 {
+				if c, ok := segs[len(segs)-2].(string); ok && c != "" && !strings.ContainsRune(cutset, rune(c[len(c)-1])) {
+					break
+				}
+			}
+			return nil, false
+		}
+	}
+	if left {
+		for {
+			if len(segs) == 0 {
+				break
+			}
+			first := segs[0]
+			if c, ok := first.(string); ok {
+				t := strings.TrimLeft(c, cutset)
+				if t != "" {
+					segs[0] = t
+					break
+				}
+				segs = segs[1:]
+				continue
+			}
+			sg := first.(*Sym)
+			if !disjoint(sg) {
+				return nil, false
+			}
+			if nonEmpty(sg) {
+				break
+			}
+			if len(segs) >= 2 {
+				if c, ok := segs[1].(string); ok && c != "" && !strings.ContainsRune(cutset, rune(c[0])) {
+					break
+				}
+			}
+			return nil, false
+		}
+	}
+	return concatOf(segs), true
 }
